@@ -282,7 +282,7 @@ def run_shard(ctx):
                     check_case(c, ctx.stats)
                 except Violation as v:
                     ctx.stats.violations.append({"signature": v.signature, "detail": v.detail, "case": c})
-    hyp_search(ctx, cases(), lambda c: check_case(c, ctx.stats), ctx.scale(80, 6000))
+    hyp_search(ctx, cases(), lambda c: check_case(c, ctx.stats), ctx.scale(80, 1500))
 
 
 def replay(case):
